@@ -147,8 +147,9 @@ def gen_cal(tier, rng, quick):
     for w in list(range(0, 12)) + [127, 128, 254, 255]:
         for idx in range(0, 8):
             out.append(f"wd_misc {w} {idx}")
+    out.append("constants")
     for w in range(0, 8):
-        for idx in [8, 9, 100, 255]:
+        for idx in [8, 9, 100, 255, 256, 261, 511, 65536 + 3]:
             out.append(f"wd_misc {w} {idx}")
     for m in list(range(0, 15)) + [254]:
         for d in list(range(0, 34)) + [254]:
@@ -223,6 +224,22 @@ def gen_cal(tier, rng, quick):
         zs.add(R(DAY_LO, DAY_HI))
     for z in sorted(z for z in zs if DAY_LO <= z <= DAY_HI):
         out.append(f"ymwd_from {z}")
+    # --- the kernels on their whole argument types (totality: defined, impl = model; no reference)
+    ZMAX = 2**31 - 1 - 719468
+    for z in [ZMAX, ZMAX - 1, -2**31, -2**31 + 1, DAY_HI + 1, DAY_HI + 2, DAY_LO - 1, DAY_LO - 2, DAY_HI + 366, DAY_LO - 366,
+              -2**31 + 146096, -2147337552, -2147337553] + [R(-2**31, ZMAX) for _ in range(300 if quick else 20000)]:
+        out.append(f"civil_any {z}")
+    for k in range(-3, 4):
+        for era in [-14695, -14000, -100, 90, 5000, 14699]:
+            z = era * ERA - 719468 + k
+            if -2**31 <= z <= ZMAX:
+                out.append(f"civil_any {z}")
+    for y in [-32768, -32767, -1, 0, 1, 2024, 32767]:
+        for m in [0, 1, 2, 3, 12, 13, 14, 100, 254]:
+            for d in [0, 1, 31, 32, 254]:
+                out.append(f"days_raw {y} {m} {d}")
+    for _ in range(300 if quick else 20000):
+        out.append(f"days_raw {R(-32768, 32767)} {R(0, 254)} {R(0, 254)}")
     # --- == / != of every calendar type; operator/ spellings
     for _ in range(600 if quick else 6000):
         a = [rng.choice(by + [-32768]), R(0, 14), R(0, 9), R(0, 7)]
